@@ -173,6 +173,7 @@ class IndexValidate(Contract):
         def array_validate(I, self_obj, check_obj, schema, **kw):
             p = cur()
             p.ghost["index_series_validated"] = True
+            p.ghost["handed_to_array_validation"] = (check_obj, schema, kw)
             lazy = kw.get("lazy", False)
             allowed = [("returns", None), ("OtherException", OtherException)] + ([("SchemaError", SchemaError)] if not lazy else [("SchemaErrors", SchemaErrors)])
             k = p.choose([(n, None) for n, _ in allowed], "array.validate")
@@ -198,21 +199,60 @@ class IndexValidate(Contract):
 
         k = cur().choose([("DataFrame", None), ("Series", None)], "kind(check_obj)")
         obj = FrameVal.fresh("check_obj") if k == 0 else SeriesVal.fresh("check_obj", "real")
-        return {"self": T.Ref(B).fresh("self"), "check_obj": obj, "schema": T.Ref(Index, coerce=T.Bool, name=T.Opt(T.Label)).fresh("schema"),
-                "lazy": self.arg("lazy", T.Bool), "inplace": self.arg("inplace", T.Bool)}
+        a = {"self": T.Ref(B).fresh("self"), "check_obj": obj, "schema": T.Ref(Index, coerce=T.Bool, name=T.Opt(T.Label)).fresh("schema"),
+             "lazy": self.arg("lazy", T.Bool), "inplace": self.arg("inplace", T.Bool)}
+        for o in ("head", "tail", "sample", "random_state"):
+            a[o] = SAny(name=o)
+        return a
 
     def call_target(self, I, fn, a):
-        return I.call(fn, [a["self"], a["check_obj"], a["schema"]], dict(lazy=a["lazy"], inplace=a["inplace"]))
+        return I.call(fn, [a["self"], a["check_obj"], a["schema"]], {k: a[k] for k in ("head", "tail", "sample", "random_state", "lazy", "inplace")})
 
-    def modifies(self, self_, check_obj, schema, lazy, inplace):
+    def modifies(self, self_, check_obj, schema, lazy, inplace, **kw):
         return [(check_obj, "data")] if inplace else []
 
-    def ensures(self, result, old, self_, check_obj, schema, lazy, inplace):
-        out = {"index_was_validated": cur().ghost.get("index_series_validated") is True,
+    def ensures(self, result, old, self_, check_obj, schema, lazy, inplace, **kw):
+        p = cur()
+        out = {"index_was_validated": p.ghost.get("index_series_validated") is True,
                "same_kind": type(result) is type(check_obj)}
         if inplace:
             out["inplace_returns_the_object"] = result is check_obj
+        h = p.ghost.get("handed_to_array_validation")
+        if h is not None:
+            obj, sch, ckw = h
+            # C20: head/tail/sample select rows by POSITION; the pandas sub-sampling de-duplicates by label (proved correct for unique
+            # labels only - PandasSubsample), so the index VALUES must be handed on under positional labels, never as their own labels
+            out["index_values_handed_on_under_positional_labels"] = getattr(obj, "positional_labels_of", None) is not None
+            out["validated_against_the_index_schema"] = sch is schema
+            out["subsampling_options_forwarded"] = all(ckw.get(o) is kw[o] for o in ("head", "tail", "sample", "random_state")) and ckw.get("lazy") is lazy
         return out
+
+    def concretize(self, rec):
+        def thunk():
+            """validating the first n / last n rows of an index = validating exactly those positions, also with repeated index values"""
+            import warnings
+
+            import pandas as pd
+            import pandera as pa
+
+            warnings.simplefilter("ignore")
+            obs, bad = {}, False
+            s = pd.Series([1, 2, 3, 4], index=[7, 7, 7, 8])
+            schema = pa.SeriesSchema(int, index=pa.Index(int, unique=True))
+            for opts in ({"head": 3}, {"tail": 3}, {"head": 4}, {}):
+                try:
+                    schema.validate(s, **opts)
+                    got = "accept"
+                except (pa.errors.SchemaError, pa.errors.SchemaErrors):
+                    got = "reject"
+                rows = s.head(opts["head"]) if "head" in opts else (s.tail(opts["tail"]) if "tail" in opts else s)
+                want = "reject" if rows.index.duplicated().any() else "accept"
+                if got != want:
+                    bad = True
+                    obs[f"index [7,7,7,8], Index(unique=True), options {opts}"] = f"{got}, validating those rows alone gives {want}"
+            return bad, obs or "sub-sampled index validation agrees with validating the selected rows"
+
+        return thunk
 
 
 class _IndexSeries:
@@ -222,7 +262,10 @@ class _IndexSeries:
         self.idx = idx
 
     def reset_index(self, drop=False):
-        return SeriesVal.fresh("index_as_series", "real")
+        s = SeriesVal.fresh("index_as_series", "real")
+        if drop:
+            s.positional_labels_of = self.idx  # labels 0..n-1: unique by construction
+        return s
 
 
 CONTRACTS = [ArrayValidate, IndexValidate]
